@@ -972,6 +972,61 @@ example : txC 0 1 (Msg.run (Msg.init 0 [{ maxRtx := 1 }]) gevs).out = 2 ∧
     txC 0 2 (Msg.run (Msg.init 0 [{ maxRtx := 1 }]) gevs).out = 2 ∧
     accC 0 1 (Msg.init 0 [{ maxRtx := 1 }]) gevs = 1 := by decide
 
+open Coap.Sim Coap.Sched in
+/-- **m_transmissions_exactly** (full — "retransmitted after T, 2T, 4T, …", exactly): in every punctual run, for every
+node in the send queue whose (session, mid) was accepted by `coap_send` exactly once: the number of transmissions of
+that message so far is exactly `retransmit_cnt + 1` — numbers 0 … cnt, each made once, at `t0 + (2^j − 1)·T`
+(`m_pending_on_schedule`), nothing else (`m_at_most_max_retransmissions`) — and it is the only node of that message. -/
+theorem m_transmissions_exactly (now0 : Nat) (sess : List Msg.Sess) (evs : List Msg.Ev)
+    (hs : ∀ se ∈ sess, SessOk se) (hin : RunG (Msg.init now0 sess) evs) (hpu : Punctual (Msg.init now0 sess) evs) :
+    let l := Msg.run (Msg.init now0 sess) evs
+    ∀ n ∈ l.q.nodes, accC n.sess n.mid (Msg.init now0 sess) evs = 1 →
+      txC n.sess n.mid l.out = n.cnt + 1 ∧ pendC n.sess n.mid l.q.nodes = 1 := by
+  intro l n hn hacc
+  obtain ⟨d, hd⟩ := mem_absP_of_mem (fun s => (parOf sess s).maxRtx) l.q.base l.q.nodes n hn
+  obtain ⟨t0, hall, _⟩ := m_pending_on_schedule now0 sess evs hs hin hpu (d, toP _ n) hd
+  have hge := txC_ge n.sess n.mid n.cnt l.out (fun j => sched t0 n.timeout j) hall
+  have hbud := m_at_most_max_retransmissions now0 sess evs hs hin n.sess n.mid
+  have hb := budC_ge_mem n.sess n.mid (parOf sess n.sess).maxRtx l.q.nodes n hn rfl rfl
+  have hcnt := ((m_pdu_and_timeout_fixed now0 sess evs hs hin).1 n hn).2.2.1
+  have hso := m_single_outcome now0 sess evs hs hin n.sess n.mid
+  have hpos := pendC_pos_mem n.sess n.mid l.q.nodes n hn rfl rfl
+  rw [hacc, Nat.mul_one] at hbud
+  simp only [l] at hge hb hcnt hso hpos ⊢
+  rw [hacc] at hso
+  constructor
+  · omega
+  · omega
+
+open Coap.Sim Coap.Sched in
+/-- **m_giveup_exactly_max** (full — "… or MAX_RETRANSMIT retransmissions have been made"): in every punctual run, when a
+TOO_MANY_RETRIES NACK has been reported for a (session, mid) accepted by `coap_send` exactly once, that message has been
+transmitted exactly `MAX_RETRANSMIT + 1` times: once, and MAX_RETRANSMIT retransmissions — no fewer
+(`m_giveup_after_all_retransmissions`), no more (`m_at_most_max_retransmissions`). -/
+theorem m_giveup_exactly_max (now0 : Nat) (sess : List Msg.Sess) (evs : List Msg.Ev)
+    (hs : ∀ se ∈ sess, SessOk se) (hin : RunG (Msg.init now0 sess) evs) (hpu : Punctual (Msg.init now0 sess) evs) :
+    ∀ t s mid, Msg.Out.nack t s .retries mid true ∈ (Msg.run (Msg.init now0 sess) evs).out →
+      accC s mid (Msg.init now0 sess) evs = 1 →
+      txC s mid (Msg.run (Msg.init now0 sess) evs).out = (parOf sess s).maxRtx + 1 := by
+  intro t s mid hmem hacc
+  obtain ⟨t0, r, _, hall, _⟩ := m_giveup_after_all_retransmissions now0 sess evs hs hin hpu t s mid hmem
+  have hge := txC_ge s mid (parOf sess s).maxRtx _ _ hall
+  have hbud := m_at_most_max_retransmissions now0 sess evs hs hin s mid
+  rw [hacc, Nat.mul_one] at hbud
+  simp only [] at hbud
+  omega
+
+open Coap.Sim Coap.Sched in
+/-- non-vacuity of `m_transmissions_exactly` / `m_giveup_exactly_max` on the gated witness (MAX_RETRANSMIT 1): after 9
+events message 2 is pending with `retransmit_cnt = 1` and has been transmitted twice; message 1 was given up after
+exactly 2 transmissions -/
+example : (Msg.run (Msg.init 0 [{ maxRtx := 1 }]) (gevs.take 9)).q.nodes.map (fun n => (n.mid, n.cnt)) = [(2, 1)] ∧
+    accC 0 2 (Msg.init 0 [{ maxRtx := 1 }]) (gevs.take 9) = 1 ∧
+    txC 0 2 (Msg.run (Msg.init 0 [{ maxRtx := 1 }]) (gevs.take 9)).out = 2 ∧
+    RunG (Msg.init 0 [{ maxRtx := 1 }]) (gevs.take 9) ∧ Punctual (Msg.init 0 [{ maxRtx := 1 }]) (gevs.take 9) ∧
+    Msg.Out.nack 6000 0 .retries 1 true ∈ (Msg.run (Msg.init 0 [{ maxRtx := 1 }]) gevs).out ∧
+    txC 0 1 (Msg.run (Msg.init 0 [{ maxRtx := 1 }]) gevs).out = 2 := by decide
+
 /-- witness run over the wider alphabet: a NON in between, message 2 delayed by the NSTART gate, a response carrying
 token 1 cancels message 1 (which lets message 2 in at 500), message 2 is retransmitted at 3500 = 500 + 3000, a
 `coap_session_connected`, then an invalid-code ACK ends message 2 (NACK "bad response") -/
